@@ -156,6 +156,7 @@ struct Gen {
 static uint64_t run_seed(uint64_t seed, const char* prop, uint64_t run) { return mix3(seed, prop_tag(prop), run); }
 
 static void common_knobs(Plan& p, Gen& g, uint64_t rs, uint32_t chk) {
+  if (g.r.chance(1, 3)) { static const int fl[] = {13, 14, 15, 24, 33, 40, 65, 70, 97, 130, 200}; g.go.family_len = fl[g.r.below(11)]; }
   { static const int64_t wa[] = {1, 1, 2, 4, 8}; p.knobs["walk_all_every"] = getenv("SIM_WALK") ? atoi(getenv("SIM_WALK")) : wa[g.r.below(5)]; }
   if (g.r.chance(1, 120)) { g.big = true; p.knobs["big"] = 1; g.go.huge_strings = true; }
   p.knobs["envseed"] = (int64_t)(mix64(rs ^ 0x77) >> 1);
@@ -163,6 +164,7 @@ static void common_knobs(Plan& p, Gen& g, uint64_t rs, uint32_t chk) {
   p.knobs["str_mode"] = (int64_t)g.r.below(3);
   p.knobs["own_alloc"] = (int64_t)g.r.below(64);
   p.knobs["share_pool"] = (int64_t)g.r.chance(1, 3);
+  p.knobs["user_buffer_pool"] = (int64_t)(g.r.chance(1, 4) ? 1 + g.r.below(8) : 0);   // pools over a caller buffer misaligned by (k-1)
 }
 
 // ---- C12: mutation API vs ordered containers (no Parse anywhere)
@@ -297,7 +299,16 @@ static void gen_c06(uint64_t seed, uint64_t run, const std::string& tier, Plan& 
       else if (w == 1) { Op& op = g.add("WbReserve"); op.a.push_back((int64_t)g.r.below(NWB)); op.a.push_back((int64_t)g.r.below(3000)); }
       else { Op& op = g.add("WbUse"); op.a = {(int64_t)g.r.below(NWB), (int64_t)g.r.below(200), (int64_t)g.r.below(2), (int64_t)g.r.below(2)}; }
     }
-    else if (m < 7) { Op& op = g.add("Build"); op.a.push_back(g.slot()); op.s.push_back(g.r.chance(2, 3) ? "" : g.path()); op.a.push_back((int64_t)g.r.below(3)); op.s.push_back(g.val((int)g.r.range(0, 4))); }
+    else if (m < 7) {
+      Op& op = g.add("Build"); op.a.push_back(g.slot()); op.s.push_back(g.r.chance(2, 3) ? "" : g.path()); op.a.push_back((int64_t)g.r.below(3));
+      if (g.r.chance(1, 8)) {   // directly nested non-empty containers, 5..280 deep (serializer keeps an explicit parent stack)
+        size_t depth = (size_t)(g.r.chance(1, 2) ? g.r.range(5, 40) : g.r.range(40, 280));
+        bool objs = g.r.chance(1, 4);
+        JVal v = model::gen_scalar(g.r, g.go);
+        for (size_t d = 0; d < depth; d++) { JVal w; if (objs && g.r.chance(1, 2)) { w = JVal::obj(); w.o.emplace_back("k", std::move(v)); } else { w = JVal::arr(); w.a.push_back(std::move(v)); if (g.r.chance(1, 10)) w.a.push_back(JVal::null()); } v = std::move(w); }
+        op.s.push_back(model::canon(v));
+      } else op.s.push_back(g.val((int)g.r.range(0, 4)));
+    }
     else if (m < 9) { Op& op = g.add("Parse"); op.a.push_back(g.slot()); op.s.push_back(""); model::GenOpts go2 = g.go; go2.nonfinite = false; go2.max_depth = (int)g.r.range(0, 4); std::string t; model::WriteOpts wo; wo.ws_rng = &g.r; wo.ws_max = 4; wo.escape_more = g.r.chance(1, 2); model::write(model::gen_value(g.r, go2), t, wo); op.s.push_back(t); }
     else if (m < 12) g.mutation_op();
     else if (m < 18) { Op& op = g.add("Serialize"); op.a.push_back(g.slot()); op.s.push_back(g.r.chance(2, 3) ? "" : g.path()); op.a.push_back((int64_t)g.r.below(NWB)); }
